@@ -193,18 +193,10 @@ func c09dIdent(c *Ctx) string {
 	return c09callId(c, 40)
 }
 
-// c09dSafeId: an identifier the grammar's `id` accepts (for names outside the modelled slice).
+// c09dSafeId: a name for the enclosing stage, which is outside the modelled slice: never a
+// keyword (every keyword is lower case).
 func c09dSafeId(c *Ctx) string {
-	for {
-		id := c09callId(c, 12)
-		bad := false
-		for _, k := range c09callBadKw {
-			bad = bad || id == k
-		}
-		if !bad {
-			return id
-		}
-	}
+	return "S" + c09callId(c, 12)
 }
 
 func c09dHelp(c *Ctx) string {
